@@ -38,6 +38,7 @@ fn dispatch(prop: &str, ctx: &Ctx, replay: Option<&[String]>) -> bool {
     "C17" => p!(c17),
     "C18" => p!(c18),
     "C19" => p!(c19),
+    "C20" => p!(c20),
     _ => false,
   }
 }
